@@ -31,6 +31,26 @@ RULE = ("(a) every generated program (typed generator, depth <= 3) and every tes
 SAMPLES = ["/repo/tests/a1.out", "/repo/tests/dwz-partial2-1", "/repo/tests/nontrivial-types.o"]
 
 
+def recursion_overflow(report, node=None, text=None):
+    """Known finding `unbounded-closure-recursion`: the C stack is exhausted by a program that applies
+    blocks without bound.  Accepted as that only if the sanitizer says stack-overflow, the program has a
+    block, and the reference model cannot bound it either (or there is no model of it: fuzzed bytes)."""
+    if "stack-overflow" not in report:
+        return False
+    if node is not None:
+        from .. import model as M
+        if "'block'" not in repr(node):
+            return False
+        try:
+            M.run(node, (), 200000)
+        except (M.Inconclusive, M.HardError, RecursionError):
+            return True
+        except Exception:
+            return False
+        return False
+    return text is not None and "{" in text
+
+
 def crash_record(what, text, rep):
     return {"property": PID, "kind": what, "query": text, "reason": "sanitizer/assert/hook abort: " + rep[-3500:],
             "signature": "C13:crash:" + first_repo_frame(rep) + ":" + text[:80]}
@@ -123,7 +143,10 @@ def work_gen(task):
                 if len(texts) % 25 == 0:
                     leak_gate(drv, ev, "25 generated programs", texts)
             except DriverCrash as e:
-                ev.violations.append(crash_record("generated", text, e.report))
+                if recursion_overflow(e.report, node):
+                    ev.excluded_known["unbounded-closure-recursion"] = ev.excluded_known.get("unbounded-closure-recursion", 0) + 1
+                else:
+                    ev.violations.append(crash_record("generated", text, e.report))
             except DriverTimeout:
                 ev.inconc("watchdog")
         leak_gate(drv, ev, "generated programs", texts)
@@ -250,9 +273,28 @@ def work_named_arith(task):
     return ev
 
 
+KNOWN_RECURSION = "let .loop := {|N loop| N 1 add {loop} loop}; let loop := {{.loop} .loop}; 0 loop"
+
+
+def known_findings(ev):
+    """Demonstrate the listed known finding on the production-like build; silent if it no longer reproduces."""
+    import subprocess
+    from ..harness import load_known
+    for k in load_known():
+        if k.get("property") == PID and k.get("status") == "known" and k.get("signature") == "unbounded-closure-recursion":
+            cli = os.path.join(BUILD, "bin", "dwgrep-plain")
+            try:
+                p = subprocess.run([cli, "-c", "-e", KNOWN_RECURSION], stdout=subprocess.PIPE, stderr=subprocess.PIPE, timeout=120)
+            except (OSError, subprocess.TimeoutExpired):
+                continue
+            if p.returncode not in (0, 1, 2):
+                ev.known_hits[k["signature"]] = k["what"]
+
+
 def main(tier, seed):
     t0 = time.time()
     ev = Evidence()
+    known_findings(ev)
     ev.merge(run_pool(work_named_arith, [(lo, lo + 400) for lo in range(0, 6400, 400)]))
     ev.merge(run_pool(work_errors, [(lo, lo + 4) for lo in range(0, len(ERROR_TEMPLATES), 4)]))
     ev.extra["error_templates"] = len(ERROR_TEMPLATES)
@@ -281,6 +323,9 @@ def main(tier, seed):
             data = open(art, "rb").read()
             if fails == 0:
                 ev.inconc("fuzz artifact did not reproduce")
+                continue
+            if recursion_overflow(rep, text=data[:-2].decode("latin-1")):
+                ev.excluded_known["unbounded-closure-recursion"] = ev.excluded_known.get("unbounded-closure-recursion", 0) + 1
                 continue
             keep = os.path.join(BUILD, "..", "replays", PID)
             os.makedirs(keep, exist_ok=True)
